@@ -11,7 +11,7 @@ import (
 // Op is one step of a history. Everything needed to re-execute it is in the
 // struct, so a replay file is just a list of Ops plus the configuration.
 type Op struct {
-	K     string         `json:"k"` // set del incr get mget meta flush flush0 hints restart gc check
+	K     string         `json:"k"` // set del incr get mget meta flush flush0 hints restart gc check damage
 	Key   string         `json:"key,omitempty"`
 	Keys  []string       `json:"keys,omitempty"`
 	Val   *ref.ValueSpec `json:"val,omitempty"`
@@ -60,6 +60,13 @@ type SUT interface {
 	GC(sel uint64, merge bool, pref string) (info string, ran bool, err error)
 	// Info classifies where the key's current record lives (observed, not assumed).
 	Info(key string) (residence string, compressed bool)
+}
+
+// Damager is implemented by SUTs that can corrupt, on disk, one record that is no
+// key's current record (a superseded value or an outdated tombstone in a flushed,
+// rotated data file). Nothing any key reads may change by that.
+type Damager interface {
+	Damage(sel uint64) (info string, done bool)
 }
 
 // VariantRestarter is implemented by SUTs that can reopen one closed directory
